@@ -106,7 +106,7 @@ func msgs(ms []*ast.DataMessage, errs, warns []string) string {
 	return fmt.Sprintf("%s errs=%q warns=%q", sb.String(), errs, warns)
 }
 
-// Ops is the operation alphabet (19 operations).
+// Ops is the operation alphabet (21 operations).
 var Ops = []Op{
 	{"String(template)", func(s *Shared) string { return fmt.Sprint(s.Tmpl) }},
 	{"ToBytes(complete message)", func(s *Shared) string { return fmt.Sprintf("%x", s.Compl.ToBytes()) }},
@@ -160,6 +160,14 @@ var Ops = []Op{
 			return "refused"
 		}
 		return fmt.Sprintf("%s %x", m.Type(), m.ToBytes())
+	}},
+	// faulty texts take the parser's error and recovery paths (a duplicated variable name on sized ASCII items, then a
+	// second faulty message), with declared sizes that differ between the two operations
+	{"sml.Parse(faulty text, duplicated sized ASCII variable [6])", func(s *Shared) string {
+		return msgs(sml.Parse("S1F1 W\n<L <A[6] nm> <A[6] nm>>\n.\nS1F5 <L <U1 $"))
+	}},
+	{"sml.Parse(faulty text, duplicated sized ASCII variable [300])", func(s *Shared) string {
+		return msgs(sml.Parse("S2F1\n<L <A[300] nm> <A[2..300] nm>>\n.\nS2F5 <A \"x> ."))
 	}},
 }
 
